@@ -85,7 +85,9 @@ def run(ctx: Ctx) -> Outcome:
     if ctx.replay:
         return rtcheck.replay_outcome('C13', ctx, also=('C07',))
     scs = scenarios(ctx)
-    model_cov, notes = {}, []
+    model_cov, tlc_scs = rtmodel.server_clients(ctx)
+    notes = []
+    scs = scs + tlc_scs
     out = rtcheck.validate('C13', scs, ctx, also=('C07',), extra_cov=model_cov)
     out.notes += notes
     out.coverage['exhaustive_part'] = 'all single-client scripts of <= 3 calls over {submit,status,result,cancel} x {own id A, second id B, unknown id}'
